@@ -26,7 +26,7 @@
                      only when the stored expiry is not in the future
    plus: every thread finishes (a waiter left asleep, a notifier or freer stalled = deadlock
    rule), and ASan (use of a note after its nsync_note_free returned).  */
-#include "common.h"
+#include "sc.h"
 
 #define NB 7            /* base notes */
 #define NN 24           /* base + dynamic */
